@@ -15,6 +15,7 @@ import (
 // C09: per-connection concurrency limits hold and capacity never leaks.
 
 type c09extra struct {
+	lazyCounters []int // reservedQuery of every lazy connection at quiescence
 	after, fresh int // successive ReserveNewQuery successes after the history / on a fresh connection
 	measured     bool
 	reservedEnd  int
@@ -32,6 +33,18 @@ func c09Scenario(name string, o tOpt, p int, expectAllOK bool) vr.Scenario {
 		sys = &tsys{opt: o}
 		ex = &c09extra{}
 		s := sys
+		s.beforeClose = func() {
+			if pt, ok := s.tr.(*PipelineTransport); ok {
+				vs.Sleep(time.Millisecond)
+				pt.m.Lock()
+				for lc := range pt.conns {
+					lc.mu.Lock()
+					ex.lazyCounters = append(ex.lazyCounters, lc.reservedQuery)
+					lc.mu.Unlock()
+				}
+				pt.m.Unlock()
+			}
+		}
 		s.run()
 		// capacity differential on the directly driven connection: only when it
 		// is still alive (no close by anybody)
@@ -93,7 +106,15 @@ func c09Scenario(name string, o tOpt, p int, expectAllOK bool) vr.Scenario {
 			return V("stuck", fmt.Sprintf("execution did not finish, parked: %v", x.Blocked))
 		}
 		var key []string
+		for _, n := range ex.lazyCounters {
+			if n != 0 {
+				return V("counter", fmt.Sprintf("a lazy connection's reservedQuery is %d at quiescence (all calls returned)", n))
+			}
+		}
 		for _, cn := range s.conns {
+			if o.Kind == "reuse" && cn.maxPendingAtArrival >= 1 {
+				return V("limit-exceeded", fmt.Sprintf("non-pipelined connection %d received a further query while %d earlier ones were still unanswered", cn.idx, cn.maxPendingAtArrival))
+			}
 			if cn.maxInflight > limit && limit > 0 {
 				return V("limit-exceeded", fmt.Sprintf("connection %d carried %d unanswered queries, limit %d", cn.idx, cn.maxInflight, limit))
 			}
@@ -157,7 +178,7 @@ func TestVerifC09(t *testing.T) {
 		c09Scenario("pipeline-tcp-L2-q2-c3", tOpt{Kind: "pipeline-tcp", Callers: 3, MaxCq: 2, LazyQueue: 2, Srv: all}, pp(2, 3), true),
 		c09Scenario("pipeline-udp-L1-q1-c2", tOpt{Kind: "pipeline-udp", Callers: 2, MaxCq: 1, LazyQueue: 1, Srv: all}, pp(2, 3), true),
 		c09Scenario("pipeline-tcp-L2-q2-c3-cancel", tOpt{Kind: "pipeline-tcp", Callers: 3, Seq: 2, MaxCq: 2, LazyQueue: 2, Srv: all, CtxMode: []int{2, 0, 0}}, pp(1, 2), true),
-		c09Scenario("reuse-c2-seq2-cancel", tOpt{Kind: "reuse", Callers: 2, Seq: 2, Srv: srvOpt{Reorder: true}, CtxMode: []int{2, 0}}, pp(2, 3), false),
+		c09Scenario("reuse-c2-seq2-cancel", tOpt{Kind: "reuse", Callers: 2, Seq: 2, Srv: srvOpt{Reorder: true}, CtxMode: []int{2, 0}}, pp(1, 2), false),
 		c09Scenario("reuse-c2-seq2", tOpt{Kind: "reuse", Callers: 2, Seq: 2, Srv: all}, pp(2, 3), true),
 	}
 	vr.RunScenarios("C09", scs)
